@@ -289,7 +289,24 @@ fn prod_ok(out: &Value, k: &Value, pts: &[Vec<f64>]) -> bool {
 fn svc_event(run: i64, src: &str, inp: Value) -> Value {
     let x = rows_of(&inp["X"]);
     let q = rows_of(&inp["Q"]);
-    let y: Vec<f64> = ints_of(&inp["y"]).iter().map(|&v| v as f64).collect();
+    // labels: exact integers, or codes 0 / 1 standing for the two floats given by bit pattern
+    let labs: Option<(f64, f64)> = inp.get("labels4").map(|l| (unbits4(&l[0]), unbits4(&l[1])));
+    let y: Vec<f64> = ints_of(&inp["y"])
+        .iter()
+        .map(|&v| match labs {
+            None => v as f64,
+            Some((lo, hi)) => if v == 0 { lo } else { hi },
+        })
+        .collect();
+    // projection of a predicted label back to its code: bit-pattern lookup (0.5 = neither label)
+    let code = move |v: f64| -> f64 {
+        match labs {
+            None => v,
+            Some((lo, hi)) => {
+                if v.to_bits() == lo.to_bits() { 0.0 } else if v.to_bits() == hi.to_bits() { 1.0 } else { 0.5 }
+            }
+        }
+    };
     let c = inp["Cn"].as_i64().unwrap() as f64 / inp["Cd"].as_i64().unwrap() as f64;
     let epochs = inp["epochs"].as_u64().unwrap() as usize;
     let tol = pow2(-inp["tolE"].as_i64().unwrap());
@@ -335,11 +352,12 @@ fn svc_event(run: i64, src: &str, inp: Value) -> Value {
             Err(e) => Fitted::failed(left, format!("{}", e)),
             Ok(m) => {
                 let predict = |mm: &DenseMatrix<f64>| -> Vec<f64> {
-                    if api {
+                    let p = if api {
                         <Model as Predictor<DenseMatrix<f64>, Vec<f64>>>::predict(&m, mm).unwrap()
                     } else {
                         m.predict(mm).unwrap()
-                    }
+                    };
+                    p.into_iter().map(|v| code(v)).collect()
                 };
                 let (inst, w, b) = dump_model(&serde_json::to_value(&m).unwrap());
                 let (f, pred);
@@ -678,7 +696,47 @@ fn svc_input(x: &[Vec<i64>], pos: &[bool], lab: (i64, i64), c: (i64, i64), k: Va
     let (lo, hi) = (l0.min(l1), l0.max(l1));
     let y: Vec<i64> = pos.iter().map(|&b| if b { hi } else { lo }).collect();
     json!({"X": x, "y": y, "Q": q, "Cn": c.0, "Cd": c.1, "C16": c.0 * 65536 / c.1, "kernel": k,
-           "epochs": epochs, "tolE": tol_e, "sched": sched, "api": false})
+           "epochs": epochs, "tolE": tol_e, "sched": sched, "api": false, "lab": "int"})
+}
+
+/// Label pairs with a special arithmetic shape.  The event carries the labels as order-preserving
+/// codes (y = 0 for the smaller, 1 for the larger label) plus the two bit patterns (`labels4`);
+/// predictions are projected back to codes by bit-pattern lookup, so LabelOK stays exact.
+fn float_labels(r: &mut StdRng, family: usize) -> (&'static str, f64, f64) {
+    let up = |v: f64| f64::from_bits(if v >= 0.0 { v.to_bits() + 1 } else { v.to_bits() - 1 });
+    let pick = r.gen_range(0..4usize);
+    match family % 7 {
+        // non-integer pairs inside one unit interval (same integer part)
+        0 => ("unit", [0.25, 1.5, -2.75, 3.125][pick], [0.75, 1.75, -2.25, 3.5][pick]),
+        // pairs straddling zero inside (-1, 1) (both truncate to 0)
+        1 => ("zero", [-0.5, -0.25, -0.9, -0.125][pick], [0.5, 0.75, 0.1, 0.0625][pick]),
+        // pairs closer than machine epsilon / far below it
+        2 => ("eps", [0.0, 1e-20, 3.0 * pow2(-60), -1e-17][pick], [1e-17, 2e-20, 5.0 * pow2(-60), 0.0][pick]),
+        // adjacent floats
+        3 => {
+            let lo = [1.0, -3.5, 1e10, 0.1][pick];
+            ("adjacent", lo, up(lo))
+        }
+        // huge magnitudes (differences and sums overflow)
+        4 => ("huge", [1e300, -1e308, f64::MAX / 2.0, -f64::MAX][pick], [2e300, 1e308, f64::MAX, f64::MAX][pick]),
+        // tiny / subnormal magnitudes
+        5 => ("tiny", [5e-324, 1e-310, -1e-320, 2.5e-308][pick], [1e-323, 1e-300, 1e-320, 2.6e-308][pick]),
+        // negative zero as a label
+        _ => ("negzero", [-0.0, -1.0, -0.0, -2.5][pick], [1.0, -0.0, 1e-300, -0.0][pick]),
+    }
+}
+
+fn with_float_labels(mut inp: Value, pos: &[bool], name: &str, lo: f64, hi: f64) -> Value {
+    let y: Vec<i64> = pos.iter().map(|&b| if b { 1 } else { 0 }).collect();
+    inp["y"] = json!(y);
+    inp["lab"] = json!(name);
+    inp["labels4"] = json!([bits4(lo), bits4(hi)]);
+    inp
+}
+
+fn unbits4(v: &Value) -> f64 {
+    let q: Vec<u64> = v.as_array().unwrap().iter().map(|x| x.as_u64().unwrap()).collect();
+    f64::from_bits((q[0] << 48) | (q[1] << 32) | (q[2] << 16) | q[3])
 }
 
 /// batch-length ladder around the block sizes an implementation is likely to use
@@ -819,6 +877,10 @@ fn gen_svc(out: &mut Out) {
         let q = if root { abs_rows(&q) } else { q };
         run += 1;
         let mut inp = svc_input(&x, &pos, lab, c, k, epochs, tol_e, sched, q);
+        if it % 9 == 4 {
+            let (name, lo, hi) = float_labels(&mut r, it / 9);
+            inp = with_float_labels(inp, &pos, name, lo, hi);
+        }
         inp["api"] = json!(it % 5 == 1);
         jobs.push(Job { run, src: if unseeded { "unseeded" } else { "rand" }, svr: false, inp });
     }
@@ -854,6 +916,10 @@ fn gen_svc(out: &mut Out) {
         run += 1;
         let mut inp = svc_input(&x, &pos, *LABELS.choose(&mut r).unwrap(), *CS.choose(&mut r).unwrap(), k, epochs,
                                 10, sched, q);
+        if j % 4 == 2 {
+            let (name, lo, hi) = float_labels(&mut r, j);
+            inp = with_float_labels(inp, &pos, name, lo, hi);
+        }
         inp["api"] = json!(j % 3 == 1);
         inp["batch"] = batch;
         jobs.push(Job { run, src: "rand", svr: false, inp });
